@@ -106,6 +106,7 @@ pub fn entrait_for_mod(attr: &EntraitFnAttr, input_mod: InputMod) -> syn::Result
                 opts: &attr.opts,
             }
             .analyze(input_fn.input_sig(), &mut generics_analyzer)
+            .map(|trait_fn| trait_fn.with_cfg_attrs_of(&input_fn.fn_attrs))
         })
         .collect::<syn::Result<Vec<_>>>()?;
     let sub_attributes = analyze_sub_attributes(&input_mod.attrs);
